@@ -430,6 +430,88 @@ u_huge(uint64_t idx, void *arg)
     vh_sample("huge", "flenp_memory_to_sink(le32, n=2^32-1) -> 4+2^32-1 octets into a counting sink; n=2^32 refused");
 }
 
+/* huge frames through the decoders: a source that counts instead of writing, destinations whose size is only claimed */
+static struct {
+    unsigned char prefix[12];
+    size_t pn, ppos;
+    uint64_t remaining;
+    uint64_t delivered;
+} hs;
+
+static ssize_t
+hsrc_chunk(void *drv, void *out, size_t n)
+{
+    (void)drv;
+    if (hs.ppos < hs.pn) {
+        size_t k = n < hs.pn - hs.ppos ? n : hs.pn - hs.ppos;
+        memcpy(out, hs.prefix + hs.ppos, k);
+        hs.ppos += k;
+        return (ssize_t)k;
+    }
+    if (hs.remaining == 0)
+        return -ENODATA;
+    /* "deliver" up to 1 GiB per call without touching the destination */
+    uint64_t k = n < hs.remaining ? n : hs.remaining;
+    if (k > (1u << 30))
+        k = 1u << 30;
+    hs.remaining -= k;
+    hs.delivered += k;
+    return (ssize_t)k;
+}
+
+static void
+u_hugedec(uint64_t idx, void *arg)
+{
+    (void)arg;
+    (void)idx;
+    static const uint64_t lens[] = { 65535, 65536, 0x7fffffffull, 0x80000000ull, 0x80000010ull, 0xfffffffeull, 0xffffffffull,
+                                     0x100000005ull, 0x7fffffff0ull };
+    unsigned char *mem = vh_arena(16);
+    for (int k = 0; k < 6; k++)
+        for (size_t i = 0; i < sizeof lens / sizeof lens[0]; i++) {
+            uint64_t len = lens[i];
+            if (len > kmax[k])
+                continue;
+            for (int dec = 0; dec < 2; dec++) {
+                VH_CASE4(k, i, dec, 0);
+                memset(&hs, 0, sizeof hs);
+                hs.pn = ref_prefix(k, len, hs.prefix);
+                hs.remaining = len;
+                Source src;
+                chunk_source_init(&src, hsrc_chunk, NULL);
+                char key[80];
+                ssize_t rc;
+                if (dec == 0) {
+                    snprintf(key, sizeof key, "entry=flenp_memory_from_source kind=%s size=huge", kname[k]);
+                    rc = flenp_memory_from_source(k, &src, mem, (size_t)len + 7);
+                    if (rc != (ssize_t)len || hs.delivered != len)
+                        vh_fail("huge-decode", key, "len=%" PRIu64 ": rc=%zd, source delivered %" PRIu64, len, rc, hs.delivered);
+                } else {
+                    snprintf(key, sizeof key, "entry=flenp_buffer_from_source kind=%s size=huge", kname[k]);
+                    ByteBuffer b;
+                    /* the memory behind the claimed size is never touched: the source only counts */
+                    byte_buffer_set(&b, mem, (size_t)len + 100, 7, 2);
+                    rc = flenp_buffer_from_source(k, &src, &b);
+                    if (rc != (ssize_t)len || hs.delivered != len || b.used != 7 + (size_t)len || b.offset != 2)
+                        vh_fail("huge-decode", key, "len=%" PRIu64 ": rc=%zd used=%zu offset=%zu, source delivered %" PRIu64, len,
+                                rc, b.used, b.offset, hs.delivered);
+                    /* destination one octet too small */
+                    memset(&hs, 0, sizeof hs);
+                    hs.pn = ref_prefix(k, len, hs.prefix);
+                    hs.remaining = len;
+                    byte_buffer_set(&b, mem, (size_t)len + 6, 7, 2);
+                    rc = flenp_buffer_from_source(k, &src, &b);
+                    if (rc != -ENOMEM || b.used != 7 || hs.delivered != 0)
+                        vh_fail("huge-nomem", key, "len=%" PRIu64 " with room for one octet less: rc=%zd used=%zu delivered %" PRIu64,
+                                len, rc, b.used, hs.delivered);
+                }
+                VH_COUNT("huge frame decoded from a counting source");
+                *vh_ncases += 1;
+                vh_sig(0x13500000ull ^ ((uint64_t)k << 32) ^ (i << 4) ^ (uint64_t)dec);
+            }
+        }
+}
+
 /* ---- decoders ---- */
 enum { D_MEM, D_BUF, D_SINK };
 
@@ -599,6 +681,7 @@ harness_run(void)
     for (uint64_t i = 0; i < 6; i++)
         vh_unit("bounds", i, u_bounds, NULL);
     vh_unit("huge", 0, u_huge, NULL);
+    vh_unit("hugedec", 0, u_hugedec, NULL);
     for (uint64_t i = 0; i < 6 * 8; i++)
         vh_unit("dec", i, u_dec, NULL);
     for (uint64_t i = 0; i < 18; i++)
@@ -607,6 +690,7 @@ harness_run(void)
                                  "encoder: length beyond the kind's maximum refused",
                                  "encoder: chunk list with empty and inactive chunks",
                                  "huge length accepted (counting sink)", "huge length refused",
+                                 "huge frame decoded from a counting source",
                                  "decoder: payload delivered", "decoder: destination too small",
                                  "decoder: consecutive frames on one stream",
                                  "decoder: every fragmentation of a short two-frame stream",
